@@ -59,7 +59,8 @@ def make_listing(rng: random.Random, style: str) -> List[L.SInst]:
         pool = rng.sample(L.ALL_MNEMONICS, rng.randint(2, 3))
         ops = rng.choice([["%r8", "%r8d", "$0x1", "$0x10"], ["%rax", "%eax", "%ax", "$0x8"], ["%rsi", "%si", "%sil", "%rdi"],
                           ["%rsp", "%esp", "%rbp", "%bp"], ["$0x1", "$0x10", "$0x100", "%rcx"],
-                          ["-0x8(%rbp)", "-0x18(%rbp)", "%rbx", "%ebx"]])
+                          ["-0x8(%rbp)", "-0x18(%rbp)", "%rbx", "%ebx"], ["0x10(%rax,%rbx,4)", "0x10(%rax,%rbx,4)", "(%rdi)", "%rcx"],
+                          ["(%rsi)", "(%rsi)", "0x8(%rsi)", "$0x8"]])
         insts = []
         for _ in range(n):
             k = rng.choice([0, 1, 1, 2, 2, 2, 3])
